@@ -1,0 +1,314 @@
+//go:build verif
+// +build verif
+
+// Contracts for package vm (expressions, operators, helpers), read by /verif/engine (govc). Comment-only file.
+
+package vm
+
+// pure: helpers that read reflect values only; they change nothing of the interpreter's state.
+//@ func template.pure
+//@ ensures [C08] nopanicstate: true
+
+//@ func (*runInfoStruct).invokeExpr
+//@ props C04 C02 C08
+//@ like template.evalExpr
+
+//@ func (*runInfoStruct).invokeLetExpr
+//@ props C04 C02 C08
+//@ like template.evalExpr
+
+//@ func (*runInfoStruct).invokeOperator
+//@ props C04 C02 C08
+//@ like template.evalExpr
+
+//@ func (*runInfoStruct).funcExpr
+//@ props C04 C02 C08
+//@ like template.evalExpr
+
+//@ func (*runInfoStruct).anonCallExpr
+//@ props C04 C02 C08
+//@ like template.evalExpr
+
+//@ func (*runInfoStruct).callExpr
+//@ props C04 C02 C08
+//@ like template.evalExpr
+
+//@ func (*runInfoStruct).invokeArrayExpr
+//@ props C04 C02 C08
+//@ like template.evalExpr
+//@ requires expr != nil
+
+//@ func (*runInfoStruct).invokeMapExpr
+//@ props C04 C02 C08
+//@ like template.evalExpr
+//@ requires expr != nil
+
+//@ func (*runInfoStruct).invokeDerefExpr
+//@ props C04 C02 C08
+//@ like template.evalExpr
+//@ requires expr != nil
+
+//@ func (*runInfoStruct).invokeAddrExpr
+//@ props C04 C02 C08
+//@ like template.evalExpr
+//@ requires expr != nil
+
+//@ func (*runInfoStruct).invokeUnaryExpr
+//@ props C04 C02 C08
+//@ like template.evalExpr
+//@ requires expr != nil
+
+//@ func (*runInfoStruct).invokeMemberExpr
+//@ props C04 C02 C08
+//@ like template.evalExpr
+//@ requires expr != nil
+
+//@ func (*runInfoStruct).invokeItemExpr
+//@ props C04 C02 C08
+//@ like template.evalExpr
+//@ requires expr != nil
+
+//@ func (*runInfoStruct).invokeSliceExpr
+//@ props C04 C02 C08
+//@ like template.evalExpr
+//@ requires expr != nil
+
+//@ func (*runInfoStruct).invokeLetsExpr
+//@ props C04 C02 C08
+//@ like template.evalExpr
+//@ requires expr != nil
+
+//@ func (*runInfoStruct).invokeTernaryOpExpr
+//@ props C04 C02 C08
+//@ like template.evalExpr
+//@ requires expr != nil
+
+//@ func (*runInfoStruct).invokeNilCoalescingOpExpr
+//@ props C04 C02 C08
+//@ like template.evalExpr
+//@ requires expr != nil
+
+//@ func (*runInfoStruct).invokeLenExpr
+//@ props C04 C02 C08
+//@ like template.evalExpr
+//@ requires expr != nil
+
+//@ func (*runInfoStruct).invokeImportExpr
+//@ props C04 C02 C08
+//@ like template.evalExpr
+//@ requires expr != nil
+
+//@ func (*runInfoStruct).invokeMakeExpr
+//@ props C04 C02 C08
+//@ like template.evalExpr
+//@ requires expr != nil
+
+//@ func (*runInfoStruct).invokeMakeTypeExpr
+//@ props C04 C02 C08
+//@ like template.evalExpr
+//@ requires expr != nil
+
+//@ func (*runInfoStruct).invokeChanExpr
+//@ props C04 C02 C08
+//@ like template.evalExpr
+//@ requires expr != nil
+
+//@ func (*runInfoStruct).invokeIncludeExpr
+//@ props C04 C02 C08
+//@ like template.evalExpr
+//@ requires expr != nil
+
+//@ func (*runInfoStruct).invokeLetMemberExpr
+//@ props C04 C02 C08
+//@ like template.evalExpr
+//@ requires expr != nil
+
+//@ func (*runInfoStruct).invokeLetItemExpr
+//@ props C04 C02 C08
+//@ like template.evalExpr
+//@ requires expr != nil
+
+//@ func (*runInfoStruct).invokeLetItemSlice
+//@ props C04 C02 C08
+//@ like template.evalExpr
+//@ requires expr != nil
+
+//@ func (*runInfoStruct).invokeLetItemMap
+//@ props C04 C02 C08
+//@ like template.evalExpr
+//@ requires expr != nil
+
+//@ func (*runInfoStruct).invokeLetItemString
+//@ props C04 C02 C08
+//@ like template.evalExpr
+//@ requires expr != nil
+
+//@ func (*runInfoStruct).invokeLetSliceExpr
+//@ props C04 C02 C08
+//@ like template.evalExpr
+//@ requires expr != nil
+
+//@ func (*runInfoStruct).invokeLetDerefExpr
+//@ props C04 C02 C08
+//@ like template.evalExpr
+//@ requires expr != nil
+
+//@ func (*runInfoStruct).invokeBinaryOperator
+//@ props C04 C02 C08
+//@ like template.evalExpr
+//@ requires operator != nil
+
+//@ func (*runInfoStruct).invokeComparisonOperator
+//@ props C04 C02 C08
+//@ like template.evalExpr
+//@ requires operator != nil
+
+//@ func (*runInfoStruct).invokeAddOperator
+//@ props C04 C02 C08
+//@ like template.evalExpr
+//@ requires operator != nil
+
+//@ func (*runInfoStruct).invokeMultiplyOperator
+//@ props C04 C02 C08
+//@ like template.evalExpr
+//@ requires operator != nil
+
+//@ func isNil
+//@ props C04
+//@ like template.pure
+
+//@ func float64Value
+//@ props C04
+//@ like template.pure
+
+//@ func numToString
+//@ props C04
+//@ like template.pure
+
+//@ func isIntKind
+//@ props C04
+//@ like template.pure
+
+//@ func isNum
+//@ props C04
+//@ like template.pure
+
+//@ func equal
+//@ props C04
+//@ like template.pure
+
+//@ func isHashable
+//@ props C04
+//@ like template.pure
+
+//@ func hashableTypeString
+//@ props C04
+//@ like template.pure
+
+//@ func getMapIndex
+//@ props C04
+//@ like template.pure
+
+//@ func appendSlice
+//@ props C04
+//@ like template.pure
+
+//@ func makeValue
+//@ props C04
+//@ like template.pure
+
+//@ func precedenceOfKinds
+//@ props C04
+//@ like template.pure
+
+//@ func toString
+//@ props C04
+//@ like template.pure
+
+//@ func toBool
+//@ props C04
+//@ like template.pure
+
+//@ func tryToBool
+//@ props C04
+//@ like template.pure
+
+//@ func toFloat64
+//@ props C04
+//@ like template.pure
+
+//@ func tryToFloat64
+//@ props C04
+//@ like template.pure
+
+//@ func toInt64
+//@ props C04
+//@ like template.pure
+
+//@ func tryToInt64
+//@ props C04
+//@ like template.pure
+
+//@ func toInt
+//@ props C04
+//@ like template.pure
+
+//@ func tryToInt
+//@ props C04
+//@ like template.pure
+
+//@ func reflectValueSlicetoInterfaceSlice
+//@ props C04
+//@ like template.pure
+
+//@ func convertReflectValueToType
+//@ props C04
+//@ like template.pure
+
+//@ func convertSliceOrArray
+//@ props C04
+//@ like template.pure
+
+//@ func convertVMFunctionToType
+//@ props C04
+//@ like template.pure
+
+//@ func convertMap
+//@ props C04
+//@ like template.pure
+
+//@ func checkIfRunVMFunction
+//@ props C04
+//@ like template.pure
+
+//@ func processCallReturnValues
+//@ props C04
+//@ like template.pure
+
+//@ func int64Value
+//@ props C04
+//@ like template.pure
+
+//@ func (*Error).Error
+//@ props C04
+//@ requires e != nil
+
+//@ func (*runInfoStruct).makeCallArgs
+//@ props C04 C02 C08
+//@ like template.evalExpr
+//@ requires callExpr != nil && rt != nil
+
+//@ func (*runInfoStruct).callVMFunctionDirect
+//@ props C04 C02 C08
+//@ like template.evalExpr
+//@ requires callExpr != nil
+
+//@ func makeType
+//@ props C04
+//@ requires riOK(runInfo) && typeStruct != nil
+//@ modifies runInfo.err
+
+//@ func getTypeFromEnv
+//@ props C04
+//@ requires riOK(runInfo) && typeStruct != nil
+//@ modifies runInfo.err
